@@ -511,7 +511,7 @@ def main():
         bump("exact-warm/%s/%s/%s" % (what, algo, STATUS.get(st, st) if rv == 0 else "rval!=0"))
         if rv != 0 or st != 1:
             ck.violation("exactwarm_status_%s.txt" % wid, wscripts[wid], "QSexact_solver (%s) warm-started from %s (%s %s) of an LP solved to OPTIMAL before: rval %d status %s" %
-                         (algo, what, c0, r0, rv, STATUS.get(st, st)), match=dict(kind="exact-warm-status", start=what))
+                         (algo, what, c0, r0, rv, STATUS.get(st, st)), match=dict(kind="exact-warm-status", start=what, numbers=lp.get("numbers", "small"), got=STATUS.get(st, str(st)) if rv == 0 else "error"))
             continue
         nwarm += 1
         ck.count(("exact-warm", repr(lp["cols"]), repr(lp["rows"]), lp["max"], what, algo, c0, r0))
